@@ -32,7 +32,8 @@ def HeadersIn.isInformational (h : HeadersIn) : Bool :=
 
 /-- `frame::parse_u64` -/
 def parseU64 (src : Bytes) : Option Nat :=
-  if src.length > 19 then none
+  if src.isEmpty then none
+  else if src.length > 19 then none
   else src.foldl (fun acc d => match acc with
     | none => none
     | some r => if d < 48 || d > 57 then none else some (r * 10 + (d - 48))) (some 0)
@@ -69,6 +70,7 @@ def convertPollMessageServer (h : HeadersIn) : ConvReq :=
     if h.hasProtocol && !isConnect then .malformed
     else if h.status.isSome then .malformed
     else if (match h.authority with | some a => !simpleAuthority a | none => false) then .unsupported
+    else if h.authority.isNone && isConnect then .malformed            -- CONNECT names what to connect to
     else if (h.scheme.isSome && isConnect && !h.hasProtocol) then .malformed
     else if (match h.scheme with | some sc => sc != Http.str "http" && sc != Http.str "https" | none => false) then .unsupported
     else if h.scheme.isNone && (!isConnect || h.hasProtocol) then .malformed
@@ -76,6 +78,7 @@ def convertPollMessageServer (h : HeadersIn) : ConvReq :=
     else if h.path == some [] then .malformed
     else if (match h.path with | some p => !simplePath p | none => false) then .unsupported
     else if h.path.isNone && isConnect && h.hasProtocol then .malformed
+    else if h.path.isNone && !isConnect then .malformed                -- every request but CONNECT carries `:path`
     else
       -- `uri::Parts`: the scheme is dropped without an authority; `Uri::from_parts`
       let scheme := if h.authority.isSome then h.scheme else none
@@ -251,10 +254,13 @@ def recvRecvHeaders (s : Streams) (id : Nat) (h : HeadersIn) : Streams × RecvHe
     let clRes : Streams × Option PErr :=
       if (s.stream id).contentLength != .head then
         match h.fields.find? (fun f => f.1 == Http.str "content-length") with
-        | some (_, v :: _) =>
+        | some (_, v :: rest) =>
           match parseU64 v with
           | none => (s, some (PErr.libraryReset (s.stream id).id PROTOCOL_ERROR))
           | some cl =>
+            -- `get_all`: a repeated field must say the same
+            if rest.any (fun o => parseU64 o != some cl) then (s, some (PErr.libraryReset (s.stream id).id PROTOCOL_ERROR))
+            else
             let s := s.modStream id fun st => { st with contentLength := .remaining cl }
             let statusNot204304 := match h.status with
               | some st => st != Http.str "204" && st != Http.str "304"
